@@ -6,6 +6,12 @@
 #include "esl_dsqdata.c"          /* FIRST: gives access to dsqdata_pack5/2, dsqdata_unpack5/2, dsqdata_unpack_chunk */
 #include <stddef.h>
 #include <sched.h>
+#if defined(__SANITIZE_ADDRESS__)
+#include <sanitizer/lsan_interface.h>
+#define H_LEAKCHECK() __lsan_do_recoverable_leak_check()
+#else
+#define H_LEAKCHECK() 0
+#endif
 #include <unistd.h>
 #include "esl_workqueue.h"
 #include "esl_threads.h"
@@ -366,11 +372,12 @@ static void op_wqrun(void)
       if (o && ! seenb[blkid(o)]) { seenb[blkid(o)] = 1; removed++; } else { removed = -1000; break; }
       if (removed > 64) break;
     }
-    h_out("%s items=%d processed=%d%s stops=%d order=%s final=%d,%d,%d removed=%d%s trace=%s", ok ? "ok" : "fail", M, processed,
-          dup ? " dup" : "", W, fifo ? "fifo" : "unordered", rc, wc, pend, removed, g_lockerr ? " lockerr" : "", g_nevents ? g_trace : "-");
+    { ESL_WORK_QUEUE *q = g_wq; g_wq = NULL; esl_workqueue_Destroy(q); }
+    h_out("%s items=%d processed=%d%s stops=%d order=%s final=%d,%d,%d removed=%d%s%s trace=%s", ok ? "ok" : "fail", M, processed,
+          dup ? " dup" : "", W, fifo ? "fifo" : "unordered", rc, wc, pend, removed, g_lockerr ? " lockerr" : "", H_LEAKCHECK() ? " leak" : "",
+          g_nevents ? g_trace : "-");
   }
-  esl_workqueue_Destroy(g_wq);
-  g_wq = NULL; g_perturb = 0;
+  g_perturb = 0;
 }
 
 /* ---------------------------------------------------------------------------------------------
@@ -420,9 +427,10 @@ static void op_thrun(void)
     for (i = 0; i < N; i++) if (th_idxseen[i] != 1) badidx++;
     tappend(g_nevents ? ";0/F/f/u/0/0" : "0/F/f/u/0/0"); g_nevents++;
   }
-  h_out("%s workers=%d rounds=%d idx=%s early=%d%s trace=%s", ok ? "ok" : "fail", N, R, badidx ? "bad" : "ok", early, g_lockerr ? " lockerr" : "", g_trace);
-  esl_threads_Destroy(g_thr);
-  g_thr = NULL; g_perturb = 0;
+  { ESL_THREADS *t = g_thr; g_thr = NULL; esl_threads_Destroy(t); }
+  h_out("%s workers=%d rounds=%d idx=%s early=%d%s%s trace=%s", ok ? "ok" : "fail", N, R, badidx ? "bad" : "ok", early, g_lockerr ? " lockerr" : "",
+        H_LEAKCHECK() ? " leak" : "", g_trace);
+  g_perturb = 0;
 }
 
 /* ---------------------------------------------------------------------------------------------
@@ -716,8 +724,9 @@ static void op_dsqrt(void)
     clen += sprintf(cstr + clen, "%s%" PRId64 ":%d:%d", i ? "," : "", rt_chu[i].i0, rt_chu[i].N, rt_chu[i].pn); nchunks++;
   }
   for (; i < rt_nchu_alloc; i++) if (rt_chu[i].set) rt_oob++;      /* a gap in the chunk numbering */
-  h_out("ok nseq=%d chunks=%s digest=%" PRIu64 " eofs=%d dup=%d miss=%d bad=%d oob=%d err=%d lockerr=%d hdr=%s trace=%s", n1 - miss, nchunks ? cstr : "-", h,
-        rt_eofs, rt_dup, miss, bad, rt_oob, rt_err, g_lockerr, hdr, (g_ptrace && g_nevents) ? g_trace : "-");
+  /* every chunk the reader created must have been destroyed by now (esl_dsqdata_Close() has returned) */
+  h_out("ok nseq=%d chunks=%s digest=%" PRIu64 " eofs=%d dup=%d miss=%d bad=%d oob=%d err=%d lockerr=%d leak=%d hdr=%s trace=%s", n1 - miss, nchunks ? cstr : "-", h,
+        rt_eofs, rt_dup, miss, bad, rt_oob, rt_err, g_lockerr, H_LEAKCHECK() ? 1 : 0, hdr, (g_ptrace && g_nevents) ? g_trace : "-");
   g_ptrace = 0;
   free(cstr);
  CLEAN2:
